@@ -754,15 +754,15 @@ fn main() {
     }
 
     // ---- generated
-    for _ in 0..args.n(400, 10000) {
+    for _ in 0..args.n(400, 4000) {
         let mut r = rng.fork();
         store_case(&mut r, &mut model, &mut rep);
     }
-    for i in 0..args.n(300, 8000) {
+    for i in 0..args.n(300, 3000) {
         let mut r = rng.fork();
         grant_case(&mut r, &mut model, &mut rep, i < 2);
     }
-    for i in 0..args.n(1500, 25000) {
+    for i in 0..args.n(1500, 10000) {
         let mut r = rng.fork();
         stmt_case(&mut r, &mut model, &mut rep, None, i < 3);
     }
